@@ -319,19 +319,27 @@ Section Shard.
     s_batch : batch;
     s_deadline : Z;                (* when the timer fires next (meaningful iff has_timer) *)
     s_done : bool;                 (* the goroutine has returned *)
-    s_out : list (Z * list R)      (* export calls so far: (time, request), oldest first *)
+    s_in : list (Z * list R);      (* history: items taken from the channel so far: (time, item), oldest first *)
+    s_out : list (Z * list R)      (* history: export calls so far: (time, request), oldest first *)
   }.
 
   Definition has_timer : bool := negb (Z.eqb (c_timeout c) 0) && negb (Nat.eqb (c_size c) 0).
 
   Definition new_shard (now : Z) (md : list (list N)) : shard :=
-    Shard md [] (Batch [] 0) (now + c_timeout c) false [].
+    Shard md [] (Batch [] 0) (now + c_timeout c) false [] [].
+
+  Definition set_chan (ch : list (list R)) (s : shard) : shard :=
+    Shard (s_md s) ch (s_batch s) (s_deadline s) (s_done s) (s_in s) (s_out s).
+  Definition set_deadline (d : Z) (s : shard) : shard :=
+    Shard (s_md s) (s_chan s) (s_batch s) d (s_done s) (s_in s) (s_out s).
+  Definition set_done (s : shard) : shard :=
+    Shard (s_md s) (s_chan s) (s_batch s) (s_deadline s) true (s_in s) (s_out s).
 
   (* sendItems: split, export.  The verdict of the downstream consumer does not influence the
      shard (an error is only logged), so every export call is simply recorded. *)
   Definition send_items (now : Z) (s : shard) : shard :=
     let '(_, req, b') := b_split (s_batch s) in
-    Shard (s_md s) (s_chan s) b' (s_deadline s) (s_done s) (s_out s ++ [(now, req)]).
+    Shard (s_md s) (s_chan s) b' (s_deadline s) (s_done s) (s_in s) (s_out s ++ [(now, req)]).
 
   (* the for loop of processItem; fuel bounds the number of iterations (b_n + 1 suffices) *)
   Fixpoint send_loop (fuel : nat) (now : Z) (s : shard) : shard * bool :=
@@ -344,40 +352,36 @@ Section Shard.
         else (s, false)
     end.
 
-  Definition set_deadline (d : Z) (s : shard) : shard :=
-    Shard (s_md s) (s_chan s) (s_batch s) d (s_done s) (s_out s).
-
-  (* processItem *)
+  (* processItem: add, send while the size condition holds, then stopTimer + resetTimer if sent *)
   Definition process_item (now : Z) (s : shard) (p : list R) : shard :=
-    let s1 := Shard (s_md s) (s_chan s) (b_add (s_batch s) p) (s_deadline s) (s_done s) (s_out s) in
+    let s1 := Shard (s_md s) (s_chan s) (b_add (s_batch s) p) (s_deadline s) (s_done s)
+                    (s_in s ++ [(now, p)]) (s_out s) in
     let '(s2, sent) := send_loop (S (b_n (s_batch s1))) now s1 in
     if sent && has_timer then set_deadline (now + c_timeout c) s2 else s2.
 
   (* producer side of consume: the send on the newItem channel *)
-  Definition sh_enqueue (s : shard) (p : list R) : shard :=
-    Shard (s_md s) (s_chan s ++ [p]) (s_batch s) (s_deadline s) (s_done s) (s_out s).
+  Definition sh_enqueue (s : shard) (p : list R) : shard := set_chan (s_chan s ++ [p]) s.
 
   (* select case item := <-b.newItem *)
   Definition sh_recv (now : Z) (s : shard) : shard :=
     if s_done s then s else
     match s_chan s with
     | [] => s
-    | p :: r => process_item now (Shard (s_md s) r (s_batch s) (s_deadline s) (s_done s) (s_out s)) p
+    | p :: r => process_item now (set_chan r s) p
     end.
 
   (* select case <-timerCh (only exists when there is a timer) *)
   Definition sh_timer (now : Z) (s : shard) : shard :=
-    if s_done s || negb has_timer then s else
+    if s_done s || negb has_timer || Z.ltb now (s_deadline s) then s else   (* a timer never fires early *)
     let s1 := if Nat.ltb 0 (b_n (s_batch s)) then send_items now s else s in
     set_deadline (now + c_timeout c) s1.
 
   (* select case <-shutdownC: drain the channel, one last send, return *)
   Definition sh_seen (now : Z) (s : shard) : shard :=
     if s_done s then s else
-    let s1 := fold_left (process_item now) (s_chan s)
-                (Shard (s_md s) [] (s_batch s) (s_deadline s) (s_done s) (s_out s)) in
+    let s1 := fold_left (process_item now) (s_chan s) (set_chan [] s) in
     let s2 := if Nat.ltb 0 (b_n (s_batch s1)) then send_items now s1 else s1 in
-    Shard (s_md s2) (s_chan s2) (s_batch s2) (s_deadline s2) true (s_out s2).
+    set_done s2.
 
   (* ========================================================================================== *)
   (* 4. the processor: shards by metadata                                                        *)
@@ -405,23 +409,43 @@ Section Shard.
     | x :: r, S m => x :: upd_nth m f r
     end.
 
-  (* consume(ctx, data) = (state, error class: 0 nil / 1 errTooManyBatchers) *)
+  (* the section of multiShardBatcher.consume under mb.lock, entered after batchers.Load missed:
+     limit check FIRST, then LoadOrStore (which may find a shard that another producer created
+     between this producer's Load and its Lock) *)
+  Definition bp_consume_locked (now : Z) (vals : list (list N)) (p : list R) (st : bp) : bp * N :=
+    if negb (Nat.eqb (c_limit c) 0) && Nat.leb (c_limit c) (length st) then (st, 1%N)   (* errTooManyBatchers *)
+    else match find_shard (aset_of vals) st with
+         | Some i => (upd_nth i (fun s => sh_enqueue s p) st, 0%N)                        (* loaded *)
+         | None => (st ++ [sh_enqueue (new_shard now vals) p], 0%N)                       (* stored + started *)
+         end.
+
+  (* consume(ctx, data) = (state, error class: 0 nil / 1 errTooManyBatchers); the whole call as one
+     atomic step (Load, locked section, channel send) *)
   Definition bp_consume (now : Z) (md : metadata) (p : list R) (st : bp) : bp * N :=
     match mks c with
     | [] => (upd_nth 0 (fun s => sh_enqueue s p) st, 0%N)              (* singleShardBatcher *)
     | _ =>
         let vals := md_values md in
         match find_shard (aset_of vals) st with
-        | Some i => (upd_nth i (fun s => sh_enqueue s p) st, 0%N)
-        | None =>
-            if negb (Nat.eqb (c_limit c) 0) && Nat.leb (c_limit c) (length st) then (st, 1%N)
-            else (st ++ [sh_enqueue (new_shard now vals) p], 0%N)
+        | Some i => (upd_nth i (fun s => sh_enqueue s p) st, 0%N)      (* batchers.Load hit *)
+        | None => bp_consume_locked now vals p st
         end
+    end.
+
+  (* the same call when its lock-free Load happened EARLIER and missed (another producer may have
+     created the shard meanwhile): only the locked section and the send happen now.  Allowing this
+     label at any time over-approximates the real schedules (a stale miss needs the shard to have
+     been absent at Load time), which is sound for the universally quantified theorems. *)
+  Definition bp_consume_stale (now : Z) (md : metadata) (p : list R) (st : bp) : bp * N :=
+    match mks c with
+    | [] => (upd_nth 0 (fun s => sh_enqueue s p) st, 0%N)
+    | _ => bp_consume_locked now (md_values md) p st
     end.
 
   (* labels of the transition system; every label carries the time at which it happens *)
   Inductive label :=
   | LConsume (now : Z) (md : metadata) (p : list R)    (* a producer's Consume call (atomic: lookup + channel send) *)
+  | LConsumeStale (now : Z) (md : metadata) (p : list R)   (* a Consume call whose Load missed earlier: locked section + send *)
   | LRecv (now : Z) (i : nat)                          (* shard i receives the next item of its channel *)
   | LTimer (now : Z) (i : nat)                         (* shard i's timer fires *)
   | LSeen (now : Z) (i : nat).                         (* shard i notices the closed shutdown channel *)
@@ -429,6 +453,7 @@ Section Shard.
   Definition bp_step (st : bp * list N) (l : label) : bp * list N :=
     match l with
     | LConsume now md p => let '(st', e) := bp_consume now md p (fst st) in (st', snd st ++ [e])
+    | LConsumeStale now md p => let '(st', e) := bp_consume_stale now md p (fst st) in (st', snd st ++ [e])
     | LRecv now i => (upd_nth i (sh_recv now) (fst st), snd st)
     | LTimer now i => (upd_nth i (sh_timer now) (fst st), snd st)
     | LSeen now i => (upd_nth i (sh_seen now) (fst st), snd st)
